@@ -52,18 +52,22 @@ class Frag:
             if fid not in F.fn:
                 raise AnalysisBroken(f'accessor {fid} not in facts')
             self.acc[nm] = fid
+        # data members by what they are, not by what they are called
+        self.F_ROOT = F.role_field(core, lambda fl: fl['t'].rstrip().endswith('*'), 'root of the tree', inherited=True)
+        self.F_COUNT = F.role_field(core, lambda fl: fl['t'] in ('long', 'int', 'unsigned long', 'std::ptrdiff_t', 'unsigned int', 'std::size_t'), 'number of nodes', inherited=True)
+        self.F_COLOR = F.role_field(self.link, lambda fl: 'Color' in fl['t'], 'colour of the node', inherited=True)
         en = F.enums.get('ipr::util::rb_tree::Color')
         if not en:
             raise AnalysisBroken('enum rb_tree::Color not found')
         self.colors = {e['name']: ('k', int(e['value']), 'enum:ipr::util::rb_tree::Color::' + e['name']) for e in en['enumerators']}
         self.colval = {int(e['value']): e['name'] for e in en['enumerators']}
-        self.st.heap[self.tree[1]].fields['root'] = NULL
-        self.st.heap[self.tree[1]].fields['count'] = ('sym', 'count')
+        self.st.heap[self.tree[1]].fields[self.F_ROOT] = NULL
+        self.st.heap[self.tree[1]].fields[self.F_COUNT] = ('sym', 'count')
 
     def node(self, name, color, summary_bh=None):
         o = self.st.new_obj(self.node_cls, origin=('frag',))
         self.names[o[1]] = name
-        self.st.heap[o[1]].fields['color'] = self.colors[color]
+        self.st.heap[o[1]].fields[self.F_COLOR] = self.colors[color]
         for nm in ('left', 'right', 'parent'):
             self.set(o, nm, NULL)
         if summary_bh is not None:
@@ -99,7 +103,7 @@ class Frag:
             self.set(child, 'parent', parent)
 
     def color(self, st, n):
-        c = st.heap[n[1]].fields.get('color')
+        c = st.heap[n[1]].fields.get(self.F_COLOR)
         return self.colval.get(c[1]) if isinstance(c, tuple) and c[0] == 'k' else None
 
     def nm(self, n):
@@ -176,7 +180,7 @@ def build_fixup_state(F, S, core, p_side, z_side, regime, uncle, context):
     gg = None
     gg_side = None
     if context == 'root':
-        fr.st.heap[fr.tree[1]].fields['root'] = ('addr', g)
+        fr.st.heap[fr.tree[1]].fields[fr.F_ROOT] = ('addr', g)
         root = g
     else:
         gg_side, gg_col = context
@@ -186,7 +190,7 @@ def build_fixup_state(F, S, core, p_side, z_side, regime, uncle, context):
         fr.link2(gg, 'right' if gg_side == 'left' else 'left', ggo)
         top = fr.node('ROOT', BLACK, summary_bh=98)
         fr.set(gg, 'parent', top)           # something above, never looked into
-        fr.st.heap[fr.tree[1]].fields['root'] = ('addr', top)
+        fr.st.heap[fr.tree[1]].fields[fr.F_ROOT] = ('addr', top)
         root = top
     return fr, dict(z=z, p=p, g=g, u=u, gg=gg, gg_side=gg_side, root=root)
 
@@ -274,7 +278,7 @@ def one_iteration(F, S, core, f, loop, after, p_side, z_side, regime, uncle, con
     znew = znew[1] if isinstance(znew, tuple) and znew[0] == 'addr' else None
     # where is the fragment attached now?
     if context == 'root':
-        r = st1.heap[fr.tree[1]].fields.get('root')
+        r = st1.heap[fr.tree[1]].fields.get(fr.F_ROOT)
         r = r[1] if isinstance(r, tuple) and r[0] == 'addr' else None
         above = None
     else:
@@ -285,7 +289,7 @@ def one_iteration(F, S, core, f, loop, after, p_side, z_side, regime, uncle, con
         other = 'right' if n['gg_side'] == 'left' else 'left'
         if fr.nm(fr.get(st1, gg, other)) != 'ggo' or fr.nm(fr.get(st1, gg, 'parent')) != 'ROOT':
             problems.append('links outside the fragment were modified')
-        if fr.nm(st1.heap[fr.tree[1]].fields.get('root', (None, None))[1]) != 'ROOT':
+        if fr.nm(st1.heap[fr.tree[1]].fields.get(fr.F_ROOT, (None, None))[1]) != 'ROOT':
             problems.append('the root pointer was changed although the fragment is not at the root')
     if r is None:
         return problems + ['the fragment is detached from the tree']
@@ -320,7 +324,7 @@ def one_iteration(F, S, core, f, loop, after, p_side, z_side, regime, uncle, con
         sub = []
         rr = r
         if context == 'root':
-            rr = st2.heap[fr.tree[1]].fields.get('root')
+            rr = st2.heap[fr.tree[1]].fields.get(fr.F_ROOT)
             rr = rr[1] if isinstance(rr, tuple) and rr[0] == 'addr' else None
             if rr is None or fr.color(st2, rr) != BLACK:
                 problems.append('the root is not black on exit')
@@ -344,7 +348,7 @@ def small_tree(F, S, core, n_nodes):
     nodes = {}
     if n_nodes >= 1:
         a = fr.node('a', BLACK)
-        fr.st.heap[fr.tree[1]].fields['root'] = ('addr', a)
+        fr.st.heap[fr.tree[1]].fields[fr.F_ROOT] = ('addr', a)
         nodes['a'] = a
     if n_nodes == 3:
         b = fr.node('b', RED)
@@ -352,7 +356,7 @@ def small_tree(F, S, core, n_nodes):
         fr.link2(a, 'left', b)
         fr.link2(a, 'right', c)
         nodes.update(b=b, c=c)
-    fr.st.heap[fr.tree[1]].fields['count'] = ('k', n_nodes, 'int')
+    fr.st.heap[fr.tree[1]].fields[fr.F_COUNT] = ('k', n_nodes, 'int')
     return fr, nodes
 
 
@@ -458,7 +462,7 @@ def where_linked(fr, st, target):
         for side in ('left', 'right'):
             if fr.get(st, n, side) == target:
                 return (nm, side)
-    r = st.heap[fr.tree[1]].fields.get('root')
+    r = st.heap[fr.tree[1]].fields.get(fr.F_ROOT)
     if isinstance(r, tuple) and r[0] == 'addr' and r[1] == target:
         return ('root', None)
     return None
@@ -494,7 +498,7 @@ def agree(F, table, own, n_nodes):
         # the new node
         newn = None
         calls = [e for e in st.effects if e[0] in ('call', 'fcall') and contracts.fn_simple(e[1]) == 'fixup_insert']
-        cnt = st.heap[fr.tree[1]].fields.get('count')
+        cnt = st.heap[fr.tree[1]].fields.get(fr.F_COUNT)
         cnt0 = n_nodes
         grew = cnt == ('k', cnt0 + 1, 'int')
         same = cnt == ('k', cnt0, 'int')
